@@ -112,6 +112,16 @@ def check_case(case):
     exp = treeref.reroot(t, var)
     if got != exp:
         return ("reroot-differs", "%r var=%r expected=%r got=%r" % (text, var, exp, got))
+    # the class behind the helper, used directly (one instance per variable, as a caller would)
+    try:
+        from odata_query.rewrite import IdentifierStripper
+        got2 = decode(IdentifierStripper(ast.Identifier(var)).visit(a))
+    except Exception as e:
+        return ("stripper-class:exception:" + lib.exc_bucket(e), "%r var=%r -> %s: %s" % (text, var, type(e).__name__, e))
+    if got2 != exp:
+        return ("stripper-class:reroot-differs", "%r var=%r expected=%r got=%r" % (text, var, exp, got2))
+    if a != snap:
+        return ("input-mutated", "%r var=%r (IdentifierStripper)" % (text, var))
     if exp == t and out != a:
         return ("identity-not-equal", "%r var=%r" % (text, var))
     return None
